@@ -2172,7 +2172,11 @@ impl World {
         };
         let signer_key = if auth_mode == 1 { stranger } else { right_key };
         let (mut metas, data): (Vec<Meta>, Vec<u8>) = match (kind, v2) {
-            ("emis", _) => {
+            ("emis", true) => {
+                let acc = ::whirlpool::accounts::SetRewardEmissionsV2 { whirlpool: fx.pool, reward_authority: signer_key, reward_vault: rvault(idx) };
+                (acc.to_account_metas(None).iter().map(Meta::from).collect(), ::whirlpool::instruction::SetRewardEmissionsV2 { reward_index: idx as u8, emissions_per_second_x64: value }.data())
+            }
+            ("emis", false) => {
                 let acc = ::whirlpool::accounts::SetRewardEmissions { whirlpool: fx.pool, reward_authority: signer_key, reward_vault: rvault(idx) };
                 (acc.to_account_metas(None).iter().map(Meta::from).collect(), ::whirlpool::instruction::SetRewardEmissions { reward_index: idx as u8, emissions_per_second_x64: value }.data())
             }
